@@ -551,7 +551,9 @@ def c03_clauses(mem, spec, specf, fbytes):
     have = len(fbytes) - real_data
     if have != want:
         gaps = any((not f["pts"] and not f["subs"]) for f in mem["frames"])
-        F("data_length", "data section holds %d bytes, frames x (4 x points + channels x sub-frames) floats = %d" % (have, want), gapframes=gaps, uniform=len(set((len(f["pts"]), tuple(len(x) for x in f["subs"])) for f in mem["frames"])) <= 1)
+        # analogless: the header announces analog samples although NO stored frame holds a sub-frame (frames loaded from a file whose rate ratio truncates to 0)
+        analogless = meas > 0 and bool(mem["frames"]) and all(not f["subs"] for f in mem["frames"])
+        F("data_length", "data section holds %d bytes, frames x (4 x points + channels x sub-frames) floats = %d" % (have, want), gapframes=gaps, uniform=len(set((len(f["pts"]), tuple(len(x) for x in f["subs"])) for f in mem["frames"])) <= 1, analogless=analogless)
     # names upper-case, lock flags
     for x in specf["groups"] + specf["params"]:
         if upper(x["name"]) != x["name"]: F("names_upper", "name %s stored with lower-case letters" % x["name"]); break
